@@ -455,3 +455,8 @@ mod tests {
         }
     }
 }
+
+// verification hook (add-only, inert unless built by `cargo kani`, which sets --cfg kani)
+#[cfg(kani)]
+#[path = "/verif/kani/user_attribute_harness.rs"]
+mod verif_kani;
